@@ -412,14 +412,17 @@ Proof.
 Qed.
 
 Lemma counts_bounded_of_tree raws t :
-  map line_of_raw raws = render 0 t -> counts_bounded (length raws) raws = true.
+  map norm_line (map line_of_raw raws) = render 0 t -> counts_bounded (length raws) raws = true.
 Proof.
   intros H. unfold counts_bounded. apply forallb_forall. intros r Hr.
   destruct (r_nkids r) as [v|] eqn:Ev; [|reflexivity].
-  assert (Hin : In (line_of_raw r) (render 0 t)) by (rewrite <- H; apply in_map; exact Hr).
-  assert (Hk : nkids (line_of_raw r) = Some (N.to_nat v)) by (unfold line_of_raw; cbn; rewrite Ev; reflexivity).
+  destruct (N.to_nat v) as [|k] eqn:Ek; [apply N.leb_le; lia|].
+  assert (Hin : In (norm_line (line_of_raw r)) (render 0 t)).
+  { rewrite <- H. apply in_map. apply in_map. exact Hr. }
+  assert (Hk : nkids (norm_line (line_of_raw r)) = Some (S k)).
+  { unfold norm_line, line_of_raw. cbn. rewrite Ev. cbn. rewrite Ek. reflexivity. }
   pose proof (render_counts_bounded t 0 _ _ Hin Hk) as Hb.
-  rewrite <- H, map_length in Hb. apply N.leb_le. lia.
+  rewrite <- H, !map_length in Hb. apply N.leb_le. lia.
 Qed.
 
 (* ---------------------------------------------------------------------------------------- *)
@@ -537,12 +540,13 @@ Proof.
   - split; [discriminate|]. intros [_ [_ [_ [_ H]]]]. discriminate.
 Qed.
 
-(* Soundness, as asked: an accepted text is the rendering of a single rooted tree, has no
-   artefact in any line, and the first word of every line is a known kind. *)
+(* Soundness, as asked: an accepted text is (up to the "(children 0)" spelling of leaves) the
+   rendering of a single rooted tree, has no artefact in any line, and the first word of every
+   line is a known kind. *)
 Theorem check_text_sound kinds text :
   check_text kinds text = true ->
   exists t,
-    map parse_line (split_lines text) = render 0 t /\
+    map norm_line (map parse_line (split_lines text)) = render 0 t /\
     unterminated text = [] /\
     Forall (fun bs => has_artefact bs = false) (split_lines text) /\
     Forall (fun bs => In (first_word (label (parse_line bs))) kinds) (split_lines text).
@@ -558,19 +562,24 @@ Proof.
     apply Hk in Hin. apply kind_ok_spec in Hin. apply Hin.
 Qed.
 
-(* Exactness: the accepted texts are precisely the printed clean trees. *)
+(* Exactness: the accepted texts are precisely the print-outs of clean lines that form a single
+   rooted tree up to the spelling of a leaf's count ("(children 0)" or nothing). *)
 Theorem check_text_exact kinds text :
-  check_text kinds text = true <-> exists t, clean kinds t /\ text = print_tree t.
+  check_text kinds text = true <->
+  exists ls, text = print_lines ls /\ Forall (line_clean kinds) ls /\
+             exists t, map norm_line ls = render 0 t.
 Proof.
   split.
   - unfold check_text. destruct (classify kinds text) eqn:E; try discriminate. intros _.
     apply classify_ok in E. destruct E as [Hu [Hne [Ha [Hc Hk]]]].
-    apply check_lines_spec in Hc. destruct Hc as [t Ht]. exists t.
+    apply check_lines_spec in Hc.
     unfold split_lines, unterminated in *.
     destruct (split_nl text) as [ls rem] eqn:Es. cbn [fst snd] in *. subst rem.
     apply split_nl_spec in Es. destruct Es as [Htext [Hnl _]]. rewrite List.app_nil_r in Htext.
-    split.
-    + apply (clean_render kinds t 0). rewrite <- Ht. apply Forall_forall. intros ln Hin.
+    exists (map parse_line ls). split; [|split; [|exact Hc]].
+    + rewrite print_lines_join, map_map, Htext. f_equal.
+      rewrite <- (map_id ls) at 1. apply map_ext. intros bs. symmetry. apply print_parse.
+    + apply Forall_forall. intros ln Hin.
       apply in_map_iff in Hin. destruct Hin as [bs [<- Hbs]].
       rewrite Forall_forall in Hnl. specialize (Hnl bs Hbs).
       rewrite forallb_forall in Hk. specialize (Hk bs Hbs). apply kind_ok_spec in Hk.
@@ -586,40 +595,75 @@ Proof.
         assert (existsb has_artefact ls = true) by (apply existsb_exists; exists bs; auto).
         congruence.
       * exact Hkin.
-    + unfold print_tree. rewrite <- Ht, print_lines_join, map_map, Htext. f_equal.
-      rewrite <- (map_id ls) at 1. apply map_ext. intros bs. symmetry. apply print_parse.
-  - intros [t [Hc ->]].
-    unfold check_text. replace (classify kinds (print_tree t)) with VOk; [reflexivity|].
+  - intros [ls [-> [Hc [t Ht]]]].
+    unfold check_text. replace (classify kinds (print_lines ls)) with VOk; [reflexivity|].
     symmetry. apply classify_ok.
-    apply (clean_render kinds t 0) in Hc.
-    assert (Hsplit : split_nl (print_tree t) = (map print_line (render 0 t), [])).
-    { unfold print_tree. rewrite print_lines_join. apply split_nl_join.
+    assert (Hsplit : split_nl (print_lines ls) = (map print_line ls, [])).
+    { rewrite print_lines_join. apply split_nl_join.
       apply Forall_forall. intros bs Hin. apply in_map_iff in Hin. destruct Hin as [l [<- Hl]].
       apply noNL_print_line. rewrite Forall_forall in Hc. apply (line_clean_ok kinds l). auto. }
     unfold split_lines, unterminated. rewrite Hsplit. cbn [fst snd].
-    assert (Hpp : map parse_line (map print_line (render 0 t)) = render 0 t).
-    { rewrite map_map. rewrite <- (map_id (render 0 t)) at 2. apply map_ext_in. intros l Hl.
+    assert (Hpp : map parse_line (map print_line ls) = ls).
+    { rewrite map_map. rewrite <- (map_id ls) at 2. apply map_ext_in. intros l Hl.
       apply parse_print. rewrite Forall_forall in Hc. apply (line_clean_ok kinds l). auto. }
     split; [reflexivity|]. split.
-    { destruct t; discriminate. }
+    { destruct ls; [destruct t; discriminate|discriminate]. }
     split.
-    { destruct (existsb has_artefact (map print_line (render 0 t))) eqn:E; [|reflexivity].
+    { destruct (existsb has_artefact (map print_line ls)) eqn:E; [|reflexivity].
       apply existsb_exists in E. destruct E as [bs [Hin Hb]].
       apply in_map_iff in Hin. destruct Hin as [l [<- Hl]].
       rewrite has_artefact_print in Hb. rewrite Forall_forall in Hc.
       destruct (Hc l Hl) as [_ [_ [_ [_ [Hno _]]]]]. congruence. }
     split.
-    { rewrite Hpp. apply check_lines_spec. exists t. reflexivity. }
+    { rewrite Hpp. apply check_lines_spec. exists t. exact Ht. }
     apply forallb_forall. intros bs Hin.
-    assert (Hin' : In (parse_line bs) (render 0 t)) by (rewrite <- Hpp; apply in_map; exact Hin).
+    assert (Hin' : In (parse_line bs) ls) by (rewrite <- Hpp; apply in_map; exact Hin).
     rewrite Forall_forall in Hc. destruct (Hc _ Hin') as [_ [Hne [Hsp [_ [_ Hkin]]]]].
     apply kind_ok_spec. split; [|exact Hkin].
     intros He. apply Hne. apply first_word_nil; assumption.
 Qed.
 
-(* Non-vacuity / completeness at text level, as asked. *)
+(* Non-vacuity / completeness at text level, as asked: the canonical print-out of every clean
+   tree is accepted ... *)
 Corollary check_text_print kinds t : clean kinds t -> check_text kinds (print_tree t) = true.
-Proof. intros H. apply check_text_exact. exists t. auto. Qed.
+Proof.
+  intros H. apply check_text_exact. exists (render 0 t). split; [reflexivity|]. split.
+  - apply (clean_render kinds t 0). exact H.
+  - exists t. apply norm_render.
+Qed.
+
+(* ... and an accepted text without any "(children 0)" is exactly such a print-out *)
+Corollary check_text_exact_canonical kinds text :
+  (check_text kinds text = true /\
+   Forall (fun bs => nkids (parse_line bs) <> Some 0%nat) (split_lines text))
+  <-> exists t, clean kinds t /\ text = print_tree t.
+Proof.
+  split.
+  - intros [H Hz]. pose proof H as H'. apply check_text_exact in H. destruct H as [ls [-> [Hc [t Ht]]]].
+    assert (Hsplit : map parse_line (split_lines (print_lines ls)) = ls).
+    { unfold split_lines. rewrite print_lines_join, split_nl_join.
+      - cbn [fst]. rewrite map_map. rewrite <- (map_id ls) at 2. apply map_ext_in. intros l Hl.
+        apply parse_print. rewrite Forall_forall in Hc. apply (line_clean_ok kinds l). auto.
+      - apply Forall_forall. intros bs Hin. apply in_map_iff in Hin. destruct Hin as [l [<- Hl]].
+        apply noNL_print_line. rewrite Forall_forall in Hc. apply (line_clean_ok kinds l). auto. }
+    assert (Hn : map norm_line ls = ls).
+    { rewrite <- Hsplit. rewrite <- (map_id (map parse_line _)) at 2. rewrite map_map.
+      rewrite map_map. apply map_ext_in. intros bs Hin. apply norm_line_id.
+      rewrite Forall_forall in Hz. apply Hz. exact Hin. }
+    rewrite Hn in Ht. subst ls. exists t. split; [|reflexivity].
+    apply (clean_render kinds t 0). exact Hc.
+  - intros [t [Hc ->]]. split; [apply check_text_print; exact Hc|].
+    apply (clean_render kinds t 0) in Hc.
+    assert (Hsplit : map parse_line (split_lines (print_tree t)) = render 0 t).
+    { unfold print_tree, split_lines. rewrite print_lines_join, split_nl_join.
+      - cbn [fst]. rewrite map_map. rewrite <- (map_id (render 0 t)) at 2. apply map_ext_in.
+        intros l Hl. apply parse_print. rewrite Forall_forall in Hc. apply (line_clean_ok kinds l). auto.
+      - apply Forall_forall. intros bs Hin. apply in_map_iff in Hin. destruct Hin as [l [<- Hl]].
+        apply noNL_print_line. rewrite Forall_forall in Hc. apply (line_clean_ok kinds l). auto. }
+    apply Forall_forall. intros bs Hin.
+    pose proof (render_no_zero 0 t) as Hz. rewrite Forall_forall in Hz. apply Hz.
+    rewrite <- Hsplit. apply in_map. exact Hin.
+Qed.
 
 (* the printed text determines the clean tree *)
 Corollary print_tree_inj kinds t t' :
@@ -636,10 +680,9 @@ Proof.
   apply render_inj. rewrite <- (H t Hc), <- (H t' Hc'), He. reflexivity.
 Qed.
 
-(* the reason reported by the driver is meaningful: a text that is the print of a tree with a
-   wrong count somewhere cannot be accepted (instance of soundness, used in the Examples) *)
 Corollary check_text_false_not_tree kinds text :
-  (forall t, map parse_line (split_lines text) <> render 0 t) -> check_text kinds text = false.
+  (forall t, map norm_line (map parse_line (split_lines text)) <> render 0 t) ->
+  check_text kinds text = false.
 Proof.
   intros H. destruct (check_text kinds text) eqn:E; [|reflexivity].
   apply check_text_sound in E. destruct E as [t [Ht _]]. exfalso. exact (H t Ht).
